@@ -348,6 +348,11 @@ MALFORMED = [
     ('datetime', [[[2020, 1, 1, 24, 0], [2020, 1, 2, 0, 0]]]),
     ('datetime', '20 March 1 12:00 / 2020 March 2 12:00'),
     ('datetime', 3.5),
+    # a token sitting between two digit groups without any white space must not fuse them
+    ('date', '1jan5'), ('date', '2feb9 - mar 1'), ('date', '1mar2'), ('date', 'jan 1 - 1dec2'),
+    ('datetime', '1mar2 2030 8:00 / 2031 mar 1 8:00'),
+    ('datetime', '2010:3028 jul 5 / 2029 jul 5 10:30'),
+    ('datetime', '2030 1jul2 8:00 / 2031 jul 1 8:00'),
     ('weekdays', '8'), ('weekdays', [8]), ('weekdays', [-1]), ('weekdays', 'x'),
     ('weekdays', '1,2'), ('weekdays', [1, 9]), ('weekdays', '19'),
 ]
@@ -360,6 +365,24 @@ def gen(ctx):
     for i, (typ, spec) in enumerate(MALFORMED):
         if i % ctx.nshards == ctx.shard:
             yield {'type': 'malformed', 'of': typ, 'spec': spec}
+    # generated malformed class: a month name glued between two digit groups (no white space
+    # on either side) must not be read as "month + fused digits"
+    for k in range(12 if quick else 300):
+        mon = rng.choice(MONTHS[1:])[:rng.choice([3, 3, 4, 9])]
+        mon = rng.choice([mon, mon.lower(), mon.upper()])
+        d1, d2 = rng.randrange(1, 4), rng.randrange(0, 10)
+        glued = f"{d1}{mon}{d2}"
+        form = rng.randrange(4)
+        if form == 0:
+            yield {'type': 'malformed', 'of': 'date', 'spec': glued}
+        elif form == 1:
+            yield {'type': 'malformed', 'of': 'date', 'spec': f"Jan 1 - {glued}"}
+        elif form == 2:
+            yield {'type': 'malformed', 'of': 'datetime',
+                   'spec': f"{glued} 2030 8:00 / 2031 mar 1 8:00"}
+        else:
+            yield {'type': 'malformed', 'of': 'datetime',
+                   'spec': f"2030 {glued} 08:00:00 / 2031-03-01T08:00"}
     for k in range(n):
         typ = rng.choice(['time', 'time', 'date', 'datetime', 'weekdays'])
         if typ == 'weekdays':
